@@ -93,6 +93,12 @@ structure InstW where
   claimedToks : List Nat := []  -- tokens for which the flag was raised
   ctxs : List CtxW := []
   healthRun : Nat := 0          -- consecutive unhealthy results in the current term
+  verifyReadDue : Option Nat := none -- a reconnect notification found the instance leading: its verification's first read is due by then
+  trigs : List Nat := []            -- the two latest moments at which something could have started an acquisition round of this
+                                    -- (non-leading) instance: a watch notification, a periodic check or Watch call that failed or found nothing
+  lastMissAt : Option Nat := none   -- the latest of them that was a periodic check finding no record
+  lastCreateAt : Option Nat := none -- its latest Create call
+  healthDemoted : Bool := false -- this instance has been demoted by the health mechanism at least once
   cut : Bool := false           -- crashed / partitioned
   recentCalls : List Nat := []  -- times of the store calls of the last 100 ms (C13: no spinning)
   -- heartbeat bookkeeping (C03)
